@@ -34,11 +34,91 @@ UNPROVED = ["the guarantee for balanced_market, peak_load_window and flex_window
 T0 = scen.T0
 
 
+PROFILE_STRATS = ["greedy", "balanced_market", "peak_load_window", "flex_window"]
+
+
 def gen_cases(tier, seed):
     n = 80 if tier == "quick" else 1500
     for i in range(n):
         for st in STRATS:
             yield {"seed": seed, "i": i, "strategy": st, "pid": PID}
+        if i % 2 == 0:
+            # one vehicle, time-varying fixed load: the connector headroom binds in some steps
+            for st in PROFILE_STRATS:
+                yield {"seed": seed, "i": i, "strategy": st, "pid": PID, "profile": True}
+
+
+def build_profile(case):
+    """one vehicle at a connector whose headroom (rating - fixed load) varies from step to step; the standing
+    time is f x the number of steps full-power charging under that headroom profile needs (real Battery)"""
+    from spice_ev.battery import Battery
+    from spice_ev.loading_curve import LoadingCurve
+    rng = random.Random("C09p:%s:%s:%s" % (case["seed"], case["i"], case["strategy"]))
+    strat = case["strategy"]
+    interval = rng.choice([10, 15, 15, 30])
+    dt = datetime.timedelta(minutes=interval)
+    start = T0 + datetime.timedelta(days=rng.choice([0, 1, 4]), hours=rng.choice([0, 6, 14]))
+    cname, pts = rng.choice(scen.CURVES[:3])
+    vt = {"name": "vt0", "capacity": rng.choice([20, 40, 50]), "mileage": 20, "charging_curve": copy.deepcopy(pts),
+          "min_charging_power": 0, "battery_efficiency": rng.choice([0.95, 1.0]), "v2g": False}
+    vmax = max(p[1] for p in pts)
+    cs_power = rng.choice([vmax, vmax / 2])
+    soc0, desired = rng.choice([0.2, 0.4, 0.6]), rng.choice([0.8, 0.9])
+    horizon = int(20 * 60 / interval)
+    share = [rng.choice([1, 1, 0.2, 0.4, 0.7]) for _ in range(horizon + 8)]
+    rising = rng.random() < 0.5
+    if rising:
+        # fixed load rises later (headroom shrinks), the situation a look-ahead must foresee
+        k0 = rng.randint(2, 8)
+        share = [1 if t < k0 else rng.choice([0.2, 0.3, 0.5]) for t in range(horizon + 8)]
+    b = Battery(float(vt["capacity"]), LoadingCurve(vt["charging_curve"]), soc0, float(vt["battery_efficiency"]))
+    traj, need = [soc0], 0
+    while desired - b.soc > 1e-5 and need < horizon:
+        b.load(dt, max_power=min(cs_power, share[need] * cs_power), target_soc=1)
+        need += 1
+        traj.append(b.soc)
+    if desired - b.soc > 1e-5:
+        return {"scenario": None, "strategy": strat, "options": {}, "meta": {"vehicles": {}}, "pid": PID}
+    f = rng.choice([1.3, 2.0])
+    stand = min(horizon, max(need + 1, math.ceil(f * need)))
+    dep_time = start + stand * dt - datetime.timedelta(minutes=rng.choice([0, 0, 1]))
+    rating = 2 * cs_power + 5.0
+    comp = {"vehicle_types": {"vt0": vt}, "charging_stations": {"CS_v0_deps": {"max_power": cs_power, "min_power": 0,
+                                                                                  "parent": "GC1"}},
+            "vehicles": {"v0": {"vehicle_type": "vt0", "soc": soc0, "desired_soc": desired,
+                                "connected_charging_station": "CS_v0_deps",
+                                "estimated_time_of_departure": scen.iso(dep_time)}},
+            "grid_connectors": {"GC1": {"max_power": rating, "voltage_level": "MV",
+                                        "cost": {"type": "fixed", "value": 0.3}}}, "batteries": {}}
+    n_steps = stand + 3
+    ev = {"fixed_load": {"building": {
+        "start_time": scen.iso(start), "step_duration_s": interval * 60, "grid_connector_id": "GC1",
+        "values": [round(rating - share[t] * cs_power - 0.01, 6) if share[t] < 1 else 1.0 for t in range(n_steps)]}},
+        "local_generation": {}, "grid_operator_signals": [], "vehicle_events": [{
+            "signal_time": scen.iso(dep_time - datetime.timedelta(hours=2)), "start_time": scen.iso(dep_time),
+            "vehicle_id": "v0", "event_type": "departure",
+            "update": {"estimated_time_of_arrival": scen.iso(dep_time + datetime.timedelta(hours=8))}}]}
+    meta = {"interval": interval, "vehicles": {"v0": {
+        "need": need, "stand": stand, "f": f, "const_curve": len(set(p[1] for p in pts)) == 1, "cs": "CS_v0_deps",
+        "dep_step": stand, "arrive_step": 0, "traj": traj, "soc0": soc0, "desired": desired, "cs_power": cs_power,
+        "profile": "rising_load" if rising else "random_load"}}}
+    options = {}
+    if strat == "balanced_market":
+        # cheaper later: the plan must know that the headroom shrinks then
+        for i in range(0, n_steps, rng.choice([2, 4])):
+            ev["grid_operator_signals"].append({
+                "signal_time": scen.iso(start - datetime.timedelta(hours=1)), "start_time": scen.iso(start + i * dt),
+                "grid_connector_id": "GC1", "cost": {"type": "fixed", "value": round(0.5 - 0.4 * i / n_steps, 3)}})
+    if strat == "flex_window":
+        options["LOAD_STRAT"] = "balanced"
+        comp["grid_connectors"]["GC1"]["window"] = True
+    if strat == "peak_load_window":
+        options["time_windows"] = "@TIME_WINDOWS"
+        meta["time_windows"] = {"default_grid_operator": {"s1": {"start": "2020-01-01", "end": "2020-12-31",
+                                                                 "windows": {lvl: [] for lvl in ["HV", "MV", "LV"]}}}}
+    scn = {"scenario": {"start_time": scen.iso(start), "interval": interval, "n_intervals": n_steps},
+           "components": comp, "events": ev}
+    return {"scenario": scn, "strategy": strat, "options": options, "meta": meta, "pid": PID}
 
 
 def steps_needed(vt, soc, desired, power_cap, interval_min, max_steps=4000):
@@ -58,6 +138,8 @@ def steps_needed(vt, soc, desired, power_cap, interval_min, max_steps=4000):
 def build(case):
     if "scenario" in case:
         return case
+    if case.get("profile"):
+        return build_profile(case)
     rng = random.Random("C09:%s:%s:%s" % (case["seed"], case["i"], case["strategy"]))
     strat = case["strategy"]
     interval = rng.choice([5, 10, 15, 15, 30])
@@ -168,7 +250,7 @@ def eval_case(case):
     strat = full["strategy"]
     viol, stats = [], [strat]
     mv = full["meta"]["vehicles"]
-    if not mv:
+    if not mv or full.get("scenario") is None:
         return {"lines": [], "impl": [], "violations": [], "nontrivial": False, "stats": ["empty"],
                 "replay_case": full}
     r = scen.run_real(full, timeout_s=90)
@@ -190,6 +272,8 @@ def eval_case(case):
         cls = "constant_curve" if m["const_curve"] else "varying_curve"
         tight = "tight" if m["f"] <= 1.05 else "slack"
         if soc_dep < m["desired"] - 1e-4:
+            if m.get("profile"):
+                cls = cls + "_headroom_" + m["profile"]
             viol.append(("service", "C09:desired_soc_missed:%s:%s:%s" % (strat, cls, tight),
                          "%s left at step %d with %.6f < desired %.4f (needed %d steps, stood %d, f=%s)"
                          % (vid, dep_t, soc_dep, m["desired"], m["need"], m["stand"], m["f"])))
